@@ -590,6 +590,9 @@ def newAppend : M WState := do
         | 0 => pure []
         | n + 1 => do
           let f ← centralHeader archiveOffset
+          -- the record is re-serialised from the DECODED name: refused when that no longer fits the
+          -- 16-bit name length field (A6 repair), before the next record is read
+          if f.fileName.length > 65535 then throw .unsupportedArchive else
           let rest ← loop n
           pure (appendRecord f :: rest)
       let files ← loop numberOfFiles
